@@ -412,7 +412,9 @@ def relate(res, prob, rng, only=None):
     # 3 child order
     check("child-order", with_tree(shuffle_children(tree, rng)))
     # 4 repeat every column k times
-    for k in (2, 3):
+    # (with motif probabilities estimated from the data a pseudocount of 0.5 is added whenever some motif is absent -
+    # documented - so multiplying the data changes the estimate: not demanded there)
+    for k in () if prob.get("mprobs_from_alignment") else (2, 3):
         check(f"repeat-columns-x{k}", with_aln({n: "".join(s[i * ml : (i + 1) * ml] * k for i in range(L)) for n, s in prob["aln"].items()}), factor=k)
     # 5 additivity over concatenation: A + (subset of A's columns, so identical columns are merged internally)
     sub = [rng.randrange(L) for _ in range(rng.randint(1, max(1, L)))]
